@@ -29,7 +29,7 @@ def workers():
 
 def mc_algebra(ck, tier):
     runs = [dict(P=5, NEQ=2, Variants=3), dict(P=3, NEQ=3, Variants=1)] if tier == "quick" else \
-           [dict(P=5, NEQ=2, Variants=4), dict(P=7, NEQ=2, Variants=2), dict(P=5, NEQ=3, Variants=1)]
+           [dict(P=5, NEQ=2, Variants=4), dict(P=7, NEQ=2, Variants=3), dict(P=11, NEQ=2, Variants=1), dict(P=3, NEQ=3, Variants=3)]
     tot = dict(states=0, trans=0)
     vac = {}
     for i, r in enumerate(runs):
@@ -283,6 +283,8 @@ def refine(c, r, name, ref):
 
 def run(tier):
     ck = Check("C04", "model_checking", tier)
+    if os.environ.get("VERIF_C04_IGNORE_KNOWN"):      # development aid: show every disagreement as a violation
+        ck.known = []
     rng = random.Random(vlib.seed() * 7919 + 13)
     vlib.build_lib()
     exe = vlib.build_harness("fast_run")
@@ -388,6 +390,9 @@ def run(tier):
             rec.update(refine(c, r, name, x["ref"]))
             if name == "crash":
                 rec["signal"] = byid[rj["id"]]["crash"]
+                # a partial result exists: the crash happened after the checkpoint of the harness, i.e. in the
+                # library calculators run last (reference of "calc", fast path of "colcok")
+                rec["stage"] = "after_checkpoint" if byid[rj["id"]]["res"] else "before_checkpoint"
             else:
                 rec["same_shape"] = x["same"]
                 rec["digits"] = x["digits"]
@@ -401,7 +406,7 @@ def run(tier):
     # classes of disagreements (known or not) of this run, for the evidence
     classes = {}
     for rec in all_recs:
-        k = json.dumps({x: y for x, y in rec.items() if x not in ("digits", "signal", "same_shape", "model", "hetero")}, sort_keys=True)
+        k = json.dumps({x: y for x, y in rec.items() if x not in ("digits", "signal", "same_shape", "model", "hetero", "stage")}, sort_keys=True)
         classes[k] = classes.get(k, 0) + 1
     ck.cov["disagreement_classes"] = [{"n": n, "class": json.loads(k)} for k, n in sorted(classes.items())]
     # vacuity / coverage
@@ -414,15 +419,23 @@ def run(tier):
     ck.cov["executed_per_pair"] = executed
     ck.cov["fast_path_confirmed_per_pair"] = taken
     ck.cov["fast_path_confirmed_how"] = how
-    ck.cov["evaluations"] = nitems
-    ck.cov["distinct_nontrivial"] = len(cases)
+    ck.cov["evaluations"] = 2 * len(cases)          # executions: the fast and the reference path of every configuration
+    ck.cov["observables_judged"] = nitems
+    distinct = set()
+    for c in cases:
+        e = byid[c["id"]]
+        if e["res"] is not None and any(it["demanded"] for it in reduce_case(c, e["res"])):
+            distinct.add(json.dumps({k: v for k, v in c.items() if k != "id"}, sort_keys=True))
+    ck.cov["distinct_nontrivial"] = len(distinct)
     ck.cov["histories_before_optimised_covariance"] = hists
     ck.cov["library_crashes_contained"] = sum(1 for e in byid.values() if e["crash"])
     ck.cov["rule"] = ("TLC enumerates option combinations x abstract inputs of the 8 pairs (9 families) of FastPaths.tla and checks "
                       "Obs_fast = Obs_ref on the model; a seeded stratified sample of the configurations satisfying the side "
                       "condition is concretised and BOTH paths are executed on the real library; every observable is compared to "
                       "1e-10 relative to the largest entry (variances for standard deviations; sets, flags, shapes and undefined "
-                      "patterns exactly) and judged by TLC (JudgeFastPaths.tla)")
+                      "patterns exactly) and judged by TLC (JudgeFastPaths.tla); "
+                      "distinct_nontrivial = distinct configurations that produced a result and have at least one observable for "
+                      "which the specification promises equality")
     for c in cases[:: max(1, len(cases) // 5)][:5]:
         r = byid[c["id"]]["res"] or {}
         ck.sample({"configuration": c, "fast": r.get("fast"), "ref": r.get("ref")})
